@@ -1282,6 +1282,8 @@ class Exec:
                     o = Obj(f.name, {}, fresh="shallow")
                     for a_, text in cc.get("init_state", {}).items():
                         o.attrs[a_] = eval_spec_expr(self, text, {})
+                    # an instance of a class nested in the running function sees its locals
+                    o.closure_env = {k_: v_ for k_, v_ in env.items() if k_ in cc.get("closure_names", [])}
                     return o
                 raise Unsupported(f"instantiating {f.name}")
             if f.kind == "classattr":
